@@ -251,6 +251,41 @@ def run(chk):
         else:
             chk.violation("corr", "model runner failed on %s: %s" % (label, mo), replay, found_input=False)
         nontriv.add((kind, " ".join(mo.split()[:2]) if not mo.startswith("ok") else "ok", len(bs) % 8 if kind == "cut" else label.split(":")[-1][:12]))
+    # the command-line consumer of the loader: `yara -C <file> <target>` must refuse every cut file with an error message and exit status 1,
+    # and accept the complete one
+    import subprocess, tempfile
+    try:
+        yara_cli = build.harness("h_c18_yara", link_cli=["yara", "args", "common", "threading"])
+    except Exception as e:      # the CLI harness belongs to C18; without it this part is skipped and says so
+        yara_cli = None
+        chk.note(cli_part="skipped: %s" % str(e)[:100])
+    if yara_cli:
+        cid0, img0, _ = imgs[0]
+        b0 = sections(img0)
+        cutpoints = sorted(set([0, 1, 4, 5, 6, 7, 17, 18, len(img0) - 1, len(img0) - 8, len(img0) - 9] + [x + dd for x in b0 for dd in (-1, 0, 1) if 0 <= x + dd < len(img0)]
+                               + [chk.rng.below(len(img0)) for _ in range(10 if tier == "quick" else 60)]))
+        cli_ok = 0
+        with tempfile.TemporaryDirectory(dir="/dev/shm") as td:
+            tgt = os.path.join(td, "target.bin")
+            open(tgt, "wb").write(b"hello world abc 1234567890 abcabc")
+            for n in cutpoints + [len(img0)]:
+                fp = os.path.join(td, "r.yarc")
+                open(fp, "wb").write(img0[:n])
+                try:
+                    p_ = subprocess.run([yara_cli, "-C", fp, tgt], stdout=subprocess.PIPE, stderr=subprocess.PIPE, timeout=30)
+                    rc_, err_ = p_.returncode, p_.stderr.decode("latin-1")
+                except subprocess.TimeoutExpired:
+                    rc_, err_ = "timeout", ""
+                rp = {"input_hex": hx(img0[:n]), "how": "write the bytes to r.yarc; yara -C r.yarc <any file>", "exit_status": rc_, "stderr": err_[:300]}
+                if n < len(img0) and (rc_ != 1 or not err_.strip()):
+                    chk.violation("cli-truncated", "`yara -C` on a compiled-rules file cut at %d of %d bytes: exit status %s, stderr %r (expected an error message and status 1)"
+                                  % (n, len(img0), rc_, err_[:120]), rp)
+                    break
+                if n == len(img0) and rc_ != 0:
+                    chk.violation("cli-complete", "`yara -C` refuses the complete compiled-rules file: exit status %s, stderr %r" % (rc_, err_[:120]), rp)
+                    break
+                cli_ok += 1
+        chk.note(cli_files=cli_ok)
     chk.note(evaluations=len(cases), distinct_nontrivial=len(nontriv), input_kinds=kinds, traces_validated_against_impl=agree,
              exhaustive=False,
              rule="images compiled from generated rule sets; every prefix (exhaustive for img0 / for two images in thorough, sampled around section boundaries and all of the relocation section for the others), "
